@@ -28,6 +28,13 @@ CLASSES = {
 }
 
 
+def _record(rnd, v: dict) -> dict:
+    """Now and then the value given for a tuple hint is an instance of a tuple subclass (a namedtuple record)."""
+    if rnd.random() < 0.2:
+        v["record"] = True
+    return v
+
+
 def _plain(rnd) -> dict:
     """A hint dltype has nothing to say about: a bare type, or an Annotated[...] whose metadata is not a dltype annotation."""
     h = dict(H_PLAIN)
@@ -200,7 +207,7 @@ def _gen_case(rnd: random.Random, libs=("np",), with_provider: float = 0.25, wit
                     elts.append(h)
                     vals.append(v)
             params.append({"name": name, "hint": H_tuple(elts)})
-            args[name] = V_tup(vals)
+            args[name] = _record(rnd, V_tup(vals))
             continue
         h, v = gen_tensor_hint(c, list(libs))
         if rnd.random() < optionals:
@@ -222,7 +229,7 @@ def _gen_case(rnd: random.Random, libs=("np",), with_provider: float = 0.25, wit
                     h, v = gen_tensor_hint(c, list(libs))
                     elts.append(h)
                     vals.append(v)
-            case["ret"], case["retval"] = H_tuple(elts), V_tup(vals)
+            case["ret"], case["retval"] = H_tuple(elts), _record(rnd, V_tup(vals))
         else:
             h, v = gen_tensor_hint(c, list(libs))
             case["ret"], case["retval"] = h, v
